@@ -269,6 +269,51 @@ def specResolve (chain : List Sect) (ph : List Phys) : Nat → Nat → Nat → S
         | none => .illformed
       | _ => .illformed
 
+/-! ### hybrid-reference revisions (ISO 32000-1 §7.5.8.4), specification side
+
+A revision may consist of a classic table whose trailer names a cross-reference stream
+(`/XRefStm`).  A reader that knows cross-reference streams looks a number up in the table first;
+what the table does not list in use is looked up in the `/XRefStm` stream BEFORE the `/Prev`
+section; objects hidden from old readers are absent from the table or listed there as free.
+`hybridSect tab stm` is the one section such a revision amounts to. -/
+
+def Ent.isInuse : Ent → Bool
+  | .inuse _ _ => true
+  | _ => false
+
+def hybridSect (tab stm : Sect) : Sect :=
+  let inTab := tab.filter (fun p => p.2.isInuse)
+  let fromStm := stm.filter (fun p => !(inTab.any (fun q => q.1 = p.1)))
+  let freeTab := tab.filter (fun p => !p.2.isInuse && !(stm.any (fun q => q.1 = p.1)))
+  inTab ++ fromStm ++ freeTab
+
+/-- the code (since /repo `fix: follow /XRefStm of hybrid-reference files …`): after the classic
+    table is parsed, the stream at `/XRefStm` is parsed and each of its entries is inserted into the
+    section's table unless the table holds an IN-USE entry for that number
+    (`table.entries.get(&n).is_some_and(|e| e.in_use)`) — i.e. appended after the table's entries -/
+def notInuseIn (tab : Sect) (k : Nat) : Bool :=
+  match lastOf tab k with
+  | some (.inuse _ _) => false
+  | _ => true
+
+def hybridSectImpl (tab stm : Sect) : Sect :=
+  tab ++ stm.filter (fun p => notInuseIn tab p.1)
+
+/-- before that repair nothing read the trailer's `/XRefStm` key: the revision was its classic
+    table alone (regression C04-F3) -/
+def hybridSectImplOld (tab _stm : Sect) : Sect := tab
+
+/-- `parse_with_incremental_updates_options`, the walk itself: `prevOf i` = the section `/Prev` of
+    section `i` names; `visited_offsets` stops the walk at the first section seen twice.
+    Result: the sections in the order they are merged (newest first). -/
+def walkPrev (prevOf : Nat → Option Nat) : Nat → Nat → List Nat → List Nat
+  | 0, _, _ => []
+  | fuel + 1, cur, visited =>
+    if visited.contains cur then []
+    else cur :: (match prevOf cur with
+      | some p => walkPrev prevOf fuel p (cur :: visited)
+      | none => [])
+
 /-- headers the recovery scan sees for a plan: every physical object, file order -/
 def headersOf (ph : List Phys) : List Header :=
   (List.range ph.length).filterMap fun i =>
